@@ -411,6 +411,9 @@ func genC08(r *Rng, tier string) []Case {
 				dn = "MI-Draft2"
 			}
 			acts := []Sx{L(Sym("miencode"), Zi(16)), L(Sym("headers")), L(Sym("miencode"), Zi(16)), L(Sym("headers")), L(Sym("write"))}
+			if r.Chance(1, 3) { // a refused call (record size 0 / negative) first: it must leave the exchange as it was
+				acts = append([]Sx{L(Sym("miencode"), Zi(int64([]int{0, -1, -16}[r.Intn(3)]))), L(Sym("write")), L(Sym("headers"))}, acts...)
+			}
 			if r.Bool() {
 				acts = append([]Sx{L(Sym("addresp"), B([]byte(dn)), B([]byte([]string{"", "x"}[r.Intn(2)])))}, acts...)
 			}
@@ -740,7 +743,7 @@ func genC01(r *Rng, tier string) []Case {
 		}
 		// a fixed NUMBER of positions per file (the file length varies with header values and with
 		// the length of the DER signature, and the run time must not): evenly spread, random phase
-		nflip, ncut := 1400, 230
+		nflip, ncut := 1000, 200
 		if tier == "thorough" {
 			nflip, ncut = len(file)*8, len(file)
 		}
